@@ -3,7 +3,7 @@
     every captured root loads back to the contents it was made from - for every finite history of
     supported operations.  Lemma file. *)
 From Coq Require Import List NArith ZArith Lia Bool Sorted.
-From Mast Require Import Prim Key Tree KeyOrder Codec CodecRT NameLen Store Diff World Erase Build Spec Canon Links Level Inv Persist Hist Nav Reload DiffSpec DiffK.
+From Mast Require Import Prim Key Tree KeyOrder Codec CodecRT NameLen Store Diff World Erase Build Spec Canon Links Level Inv Persist Hist Nav Reload DiffSpec DiffK CodecV1 DecRT RootRT.
 Import ListNotations.
 
 Opaque name_of blake2b_256 b64url crc64 uint_layer_fuel.
@@ -145,6 +145,22 @@ Proof.
   - discriminate.
 Qed.
 
+
+(** a good root survives the trip through its JSON text *)
+Lemma hrule_height_lt bf (l : kvl) h : hrule key val (klayer bf) bf l h -> h < max_layer_fuel.
+Proof.
+  intros [[->|[Hl _]] _]; [unfold max_layer_fuel; lia|]. unfold has_layer in Hl. apply Exists_exists in Hl. destruct Hl as (x & _ & Hx).
+  pose proof (klayer_bound bf (fst x)). lia.
+Qed.
+Lemma good_root_wf S kind bf l rt : good_root S kind bf l rt -> list_ok kind l -> (bf < ten40)%N -> root_wf rt.
+Proof.
+  intros (A & B & C & D & E & F & G) [_ Hsm] Hbf. unfold root_wf. rewrite A, B, C.
+  split; [unfold small in Hsm; unfold ten40; lia|].
+  split; [pose proof (hrule_height_lt _ _ _ F) as Hh; unfold max_layer_fuel in Hh; unfold ten40; lia|].
+  split; [exact Hbf|]. split; [destruct fmt; reflexivity|].
+  destruct (r_link rt) as [h|]; [|exact I]. destruct G as (n & Hs & _). inversion Hs as [? ? ? _ _ _ _ _ Hn]; subst.
+  apply plain_no_quote. exact (proj2 (proj2 Hn)).
+Qed.
 End FMT.
 
 (** * the abstract world: contents, branch factor, store and key kind of every tree and root *)
@@ -216,7 +232,7 @@ Definition sup (a : aworld2) (o : op) : Prop :=
   | ONew _ _ bf _ _ => (2 <= eff_bf bf)%N
   | OIns t k v => match aget (fst a) t with Some x => Reload.list_ok (at_fmt x) (at_kind x) (aupsert k v (at_l x)) | None => True end
   | ODel _ _ _ | OGet _ _ | OSize _ | OIter _ | OIterStop _ _ | OSeek _ _ | OSeekStop _ _ _ | OClone _ _ | OMakeRoot _ _ => True
-  | OLoad r _ s kind => match aget (snd a) r with Some x => at_s x = s /\ at_kind x = kind | None => True end
+  | OLoad r _ s kind => match aget (snd a) r with Some x => at_s x = s /\ at_kind x = kind /\ (at_bf x < ten40)%N | None => True end
   | ODiff tn told | ODiffCur tn told | ODiffStop tn told _ | ODiffFail tn told _ => same_home a tn told
   | _ => False
   end.
@@ -486,7 +502,8 @@ Proof.
     + cbn [pobs]. destruct Hg as (_ & _ & Hsz & _). rewrite Hsz. reflexivity.
   - (* OLoad *)
     specialize (HR r). destruct (aget (w_roots w) r) as [rt|] eqn:Er; destruct (aget aro r) as [x|] eqn:Ea; try contradiction; [|split; [exact Hinv|reflexivity]].
-    cbn [snd] in Hs. rewrite Ea in Hs. destruct Hs as [<- <-]. destruct HR as [Hg Hlo].
+    cbn [snd] in Hs. rewrite Ea in Hs. destruct Hs as (<- & <- & Hbf). destruct HR as [Hg Hlo].
+    rewrite (root_via_json_id rt (good_root_wf _ _ _ _ _ _ Hg Hlo Hbf)).
     destruct (load_good _ _ _ _ _ _ Hg) as (tt & [fm m] & E & Hfm & C & Hall). cbn [fst snd] in *. subst fm. rewrite E. split; [|reflexivity].
     apply (winv2_set_tree w (atr, aro) t _ x Hinv).
     exact (conj C (conj eq_refl (conj Hall Hlo))).
@@ -636,7 +653,7 @@ Definition supb (a : aworld2) (o : op) : bool :=
   | ONew _ _ bf _ _ => (2 <=? eff_bf bf)%N
   | OIns t k v => match aget (fst a) t with Some x => list_okb_f (at_fmt x) (at_kind x) (aupsert k v (at_l x)) | None => true end
   | ODel _ _ _ | OGet _ _ | OSize _ | OIter _ | OIterStop _ _ | OSeek _ _ | OSeekStop _ _ _ | OClone _ _ | OMakeRoot _ _ => true
-  | OLoad r _ s kind => match aget (snd a) r with Some x => N.eqb (at_s x) s && N.eqb (at_kind x) kind | None => true end
+  | OLoad r _ s kind => match aget (snd a) r with Some x => N.eqb (at_s x) s && N.eqb (at_kind x) kind && (at_bf x <? ten40)%N | None => true end
   | ODiff tn told | ODiffCur tn told | ODiffStop tn told _ | ODiffFail tn told _ => same_homeb a tn told
   | _ => false
   end.
@@ -652,8 +669,8 @@ Proof.
   destruct o; cbn [supb sup]; try discriminate; try (intros _; exact I); try apply same_homeb_ok.
   - intros H. apply N.leb_le; exact H.
   - destruct (aget (fst a) t); [apply list_okb_f_ok|intros _; exact I].
-  - destruct (aget (snd a) r); [|intros _; exact I]. intros H. apply andb_true_iff in H. destruct H as [H1 H2].
-    apply N.eqb_eq in H1. apply N.eqb_eq in H2. split; assumption.
+  - destruct (aget (snd a) r); [|intros _; exact I]. intros H. apply andb_true_iff in H. destruct H as [H H3]. apply andb_true_iff in H. destruct H as [H1 H2].
+    apply N.eqb_eq in H1. apply N.eqb_eq in H2. apply N.ltb_lt in H3. split; [assumption|split; assumption].
 Qed.
 
 Fixpoint condsb (w : world) (a : aworld2) (ops : list op) : bool :=
